@@ -239,6 +239,7 @@ def shape_self_product_input():
     """S defines T (-> o.txt) and amends o.txt as its own input; then S is dropped (candidate P4)."""
     return {
         "name": "self_product_input",
+        "schedule_dependent": True,  # F8: whether T runs before S is deferred depends on the schedule
         "sources": {"plan.py": ["v1", "v2"], "s1.txt": ["a"]},
         "scripts": {
             "./plan.py": {
